@@ -59,3 +59,90 @@ theorem Expr.evalW_exact (r : Rng) (ρ : Nat → Int) : ∀ (e : Expr), e.inRang
         | pow => simp at h2
 
 end Yardl
+
+/-! ### integer literals -/
+
+namespace Yardl
+
+theorem litType_contains (n : Int) (t : IntTy) (h : litType n = some t) : t.rng.contains n = true := by
+  unfold litType at h
+  split at h
+  · split at h
+    · cases h; simp [IntTy.rng, Rng.contains]; omega
+    · split at h
+      · cases h; simp [IntTy.rng, Rng.contains]; omega
+      · split at h
+        · cases h; simp [IntTy.rng, Rng.contains]; omega
+        · split at h
+          · cases h; simp [IntTy.rng, Rng.contains]; omega
+          · cases h
+  · split at h
+    · cases h; simp [IntTy.rng, Rng.contains]; omega
+    · split at h
+      · cases h; simp [IntTy.rng, Rng.contains]; omega
+      · split at h
+        · cases h; simp [IntTy.rng, Rng.contains]; omega
+        · split at h
+          · cases h; simp [IntTy.rng, Rng.contains]; omega
+          · cases h
+
+/-- no narrower type of the same signedness holds the literal -/
+theorem litType_narrowest (n : Int) (t t' : IntTy) (h : litType n = some t) (hv : t'.valid = true) (hs : t'.signed = t.signed)
+    (hn : t'.bits < t.bits) : t'.rng.contains n = false := by
+  obtain ⟨s', b'⟩ := t'
+  simp only [IntTy.valid, Bool.or_eq_true, beq_iff_eq] at hv
+  unfold litType at h
+  split at h
+  · split at h
+    · cases h; simp at hn; omega
+    · split at h
+      · cases h; simp at hs hn; subst hs
+        rcases hv with ((rfl | rfl) | rfl) | rfl <;> simp [IntTy.rng, Rng.contains] at hn ⊢ <;> omega
+      · split at h
+        · cases h; simp at hs hn; subst hs
+          rcases hv with ((rfl | rfl) | rfl) | rfl <;> simp [IntTy.rng, Rng.contains] at hn ⊢ <;> omega
+        · split at h
+          · cases h; simp at hs hn; subst hs
+            rcases hv with ((rfl | rfl) | rfl) | rfl <;> simp [IntTy.rng, Rng.contains] at hn ⊢ <;> omega
+          · cases h
+  · split at h
+    · cases h; simp at hn; omega
+    · split at h
+      · cases h; simp at hs hn; subst hs
+        rcases hv with ((rfl | rfl) | rfl) | rfl <;> simp [IntTy.rng, Rng.contains] at hn ⊢ <;> omega
+      · split at h
+        · cases h; simp at hs hn; subst hs
+          rcases hv with ((rfl | rfl) | rfl) | rfl <;> simp [IntTy.rng, Rng.contains] at hn ⊢ <;> omega
+        · split at h
+          · cases h; simp at hs hn; subst hs
+            rcases hv with ((rfl | rfl) | rfl) | rfl <;> simp [IntTy.rng, Rng.contains] at hn ⊢ <;> omega
+          · cases h
+
+/-- a literal is rejected exactly when no 64-bit type holds it -/
+theorem litType_none_iff (n : Int) : litType n = none ↔ (n < -9223372036854775808 ∨ 18446744073709551615 < n) := by
+  unfold litType
+  constructor
+  · intro h
+    split at h
+    · split at h; · cases h
+      split at h; · cases h
+      split at h; · cases h
+      split at h; · cases h
+      omega
+    · split at h; · cases h
+      split at h; · cases h
+      split at h; · cases h
+      split at h; · cases h
+      omega
+  · intro h
+    rcases h with h | h
+    · have : ¬ (0 ≤ n) := by omega
+      simp only [this, if_false]
+      repeat' split
+      all_goals first | rfl | omega
+    · have : 0 ≤ n := by omega
+      simp only [this, if_true]
+      repeat' split
+      all_goals first | rfl | omega
+
+end Yardl
